@@ -38,6 +38,34 @@ pub fn imported_server() -> &'static ppoprf::ppoprf::Server {
   })
 }
 
+/// puncture histories applied to servers that registered all 256 tags: last-level partners
+/// (x, x ^ 0x80) in both orders, first-level partners, runs, everything but one tag
+pub const PUNCTURE_HISTORIES: [&[u8]; 8] = [
+  &[0, 128],
+  &[128, 0],
+  &[5, 133, 7, 135, 6],
+  &[1, 3, 2, 0, 4],
+  &[255, 127, 254, 126],
+  &[0, 1, 2, 3, 4, 5, 6, 7, 8, 9, 10, 11, 12, 13, 14, 15, 128, 129, 130, 131],
+  &[200, 72, 201, 73, 9, 137],
+  &[64, 192, 32, 160, 96, 224, 16, 144],
+];
+
+static PUNCTURED: [OnceLock<ppoprf::ppoprf::Server>; 8] =
+  [OnceLock::new(), OnceLock::new(), OnceLock::new(), OnceLock::new(), OnceLock::new(), OnceLock::new(), OnceLock::new(), OnceLock::new()];
+
+/// built on first use (each history separately: key generation is slow under interpreters)
+pub fn punctured_server(i: usize) -> &'static ppoprf::ppoprf::Server {
+  let i = i % PUNCTURE_HISTORIES.len();
+  PUNCTURED[i].get_or_init(|| {
+    let mut s = ppoprf::ppoprf::Server::new((0..=255u8).collect()).expect("server");
+    for t in PUNCTURE_HISTORIES[i].iter() {
+      let _ = s.puncture(*t);
+    }
+    s
+  })
+}
+
 pub fn exec(c: &Case) -> Outcome {
   let b0: &[u8] = c.blobs.first().map(|b| &b[..]).unwrap_or(&[]);
   match c.target {
@@ -122,7 +150,14 @@ pub fn exec(c: &Case) -> Outcome {
       let p = ppoprf::ppoprf::Point::from(b0);
       let md = (c.num & 0xff) as u8;
       let ver = (c.num >> 8) & 1 == 1;
-      let srv = if (c.num >> 9) & 1 == 1 { imported_server() } else { eval_server() };
+      let hist = (c.num >> 10) & 0xf;
+      let srv = if hist > 0 {
+        punctured_server(hist as usize - 1)
+      } else if (c.num >> 9) & 1 == 1 {
+        imported_server()
+      } else {
+        eval_server()
+      };
       match srv.eval(&p, md, ver) {
         Ok(e) => Outcome::Accepted(e.output.as_bytes().to_vec()),
         Err(_) => Outcome::Rejected,
